@@ -51,6 +51,12 @@ where
         }
     }
 
+    /// Verification hook: number of datagrams currently being reassembled.
+    #[cfg(julianschmid_etherparse_verif)]
+    pub fn verif_active_len(&self) -> usize {
+        self.active.len()
+    }
+
     /// Add data from a sliced packet.
     pub fn process_sliced_packet(
         &mut self,
